@@ -270,6 +270,8 @@ def tlc_record(e):
         "recovery": col("recovery"),
         "hasrec": [nd["recovery"] is not None for nd in nodes],
         "conf": conf,
+        "el": [nd["elision"] or "" for nd in nodes],
+        "rec": [[{"kind": b["kind"], "node": b["node"], "bp": b["bp"]} for b in r["recursive"]] for r in e["rules"]],
     }
     return rec
 
@@ -478,3 +480,75 @@ def replay(prop, path):
     mm = [m for m in res.payload("MM") if m and m["p"] == prop]
     print(json.dumps(mm, indent=1))
     return 1 if mm else 0
+
+
+def attrs_stage(prop, tier, rep, extra_texts=()):
+    """Mechanism-level judgement of analysis attributes that feed code generation:
+    C05 - the elision class of every construct; C07 - the binding powers of every Pratt rule."""
+    rng = random.Random(seed())
+    gens = []
+    if prop == "C05":
+        for tot in range(2, (5 if tier == "quick" else 6) + 1):
+            for g in G.enum_grammars(tot, 2, 2, extra_leaves=[("elide",)]):
+                b = g["rules"][1]["body"]
+                if any(l[0] == "elide" for l in G.leaves_of(b)) and not any(l[0] == "elide" for l in G.leaves_of(g["rules"][0]["body"])) \
+                        and productive_and_reachable(g):
+                    gens.append(dict(g, name="el_" + g["name"]))
+    else:
+        gens += pratt_family(rng, 300 if tier == "quick" else 3000)
+    texts = [{"name": g["name"], "text": G.render(g)} for g in gens] + [{"name": n, "text": t} for n, t in extra_texts]
+    d = cache_dir("p1")
+    inp = os.path.join(d, "attrs-%s-%s.ndjson" % (prop, tier))
+    write_ndjson(inp, texts)
+    exports = probe(["export-texts", inp], timeout=1800)
+    items = [(t, e) for t, e in zip(texts, exports) if "panic" not in e and e.get("nodes")]
+    if prop == "C07":
+        items = [(t, e) for t, e in items if any(r["recursive"] for r in e["rules"]) and not any(x["code"] in ("E003", "E004", "E005") for x in e["diags"])]
+    recs = [tlc_record(e) for _, e in items]
+    for r, (_, e) in zip(recs, items):
+        r["right"] = e.get("semaright", [])
+    # self-test
+    import copy
+    st = None
+    for r in recs:
+        if prop == "C05" and any(x == "cond" for x in r["lel"]["el"]):
+            st = copy.deepcopy(r)
+            st["name"] = "SELFTEST:" + r["name"]
+            st["lel"]["el"] = ["none" if x == "cond" else x for x in st["lel"]["el"]]
+            break
+        if prop == "C07" and any(len(x) >= 2 for x in r["lel"]["rec"]):
+            st = copy.deepcopy(r)
+            st["name"] = "SELFTEST:" + r["name"]
+            for x in st["lel"]["rec"]:
+                if len(x) >= 2:
+                    x[0]["bp"], x[1]["bp"] = x[1]["bp"], x[0]["bp"]
+            break
+    if st:
+        recs.append(st)
+    nshard = 4
+    jobs = []
+    for k in range(nshard):
+        part = recs[k::nshard]
+        if part:
+            pth = os.path.join(d, "attrs-shard-%s-%d.ndjson" % (prop, k))
+            write_ndjson(pth, part)
+            jobs.append(pth)
+    results = parallel(lambda pth: run_tlc("MC_P1", "MC_P1_%s.cfg" % prop, env={"GFILE": pth}, workers=1, timeout=1800,
+                                           job="p1-attrs-%s-%s" % (prop, os.path.basename(pth))), jobs, jobs=4)
+    mms = []
+    for r in results:
+        if not r.ok:
+            log(r.raw[-2000:])
+            raise ToolError("TLC failed in attribute stage %s: %s" % (prop, r.error))
+        mms += [m for m in r.payload("MM") if m]
+    if st and not any(m["g"].startswith("SELFTEST:") for m in mms):
+        raise ToolError("attribute stage self-test failed (%s)" % prop)
+    texts_by = {t["name"]: t["text"] for t, _ in items}
+    for m in mms:
+        if m["g"].startswith("SELFTEST:") or m["p"] != prop:
+            continue
+        rep.violation("%s:%s:%s" % (prop, m["what"], m["g"]),
+                      "%s/%s grammar %s construct/rule %s: spec=%s lelwel=%s" % (prop, m["what"], m["g"], m.get("n"), m.get("spec", m.get("ra")), m.get("impl")),
+                      {"property": prop, "why": m["what"], "grammar": m["g"], "grammar_text": texts_by.get(m["g"]), "disagreement": m,
+                       "input": [], "entry": 0})
+    return {"grammars": len(items), "states": sum(r.distinct for r in results), "transitions": sum(r.generated for r in results)}
